@@ -412,25 +412,26 @@ func (w *World) Roles() *Roles {
 	r.TSHReverse, r.TSHByKey, r.TSHAffinity = "reverse", "reverseByKey", "affinityKey"
 	r.TSHOnConnect, r.TSHOnDisconnect = "onReverseTunnelConnect", "onReverseTunnelDisconnect"
 	if tsh != nil && r.Registry != nil {
-		st := tsh.Underlying().(*types.Struct)
 		var cbs []string
-		for i := 0; i < st.NumFields(); i++ {
-			ft := st.Field(i).Type()
+		// (fields of a uniquely embedded sub-struct — the handler's settings grouped into a config struct — count as the
+		// handler's own, under their flattened names)
+		for _, ff := range flatFields(tsh) {
+			ft, fname := ff.Type, ff.Name
 			if n := namedOf(ft); n != nil && n.Obj() == r.Registry.Obj() {
 				if _, isPtr := types.Unalias(ft).(*types.Pointer); isPtr {
-					r.TSHReverse = st.Field(i).Name()
+					r.TSHReverse = fname
 				}
 			}
 			if m, ok := ft.Underlying().(*types.Map); ok {
 				if n := namedOf(m.Elem()); n != nil && n.Obj() == r.Registry.Obj() {
-					r.TSHByKey = st.Field(i).Name()
+					r.TSHByKey = fname
 				}
 			}
 			if s, ok := ft.Underlying().(*types.Signature); ok && s.Params().Len() == 1 && strings.HasSuffix(types.TypeString(s.Params().At(0).Type(), nil), "TunnelChannel") {
 				if s.Results().Len() == 1 {
-					r.TSHAffinity = st.Field(i).Name()
+					r.TSHAffinity = fname
 				} else if s.Results().Len() == 0 {
-					cbs = append(cbs, st.Field(i).Name())
+					cbs = append(cbs, fname)
 				}
 			}
 		}
